@@ -95,6 +95,9 @@ pub struct Property {
     pub assumptions: &'static [&'static str],
     /// clauses whose antecedent must hold somewhere in every run (vacuity guard)
     pub clauses: &'static [&'static str],
+    /// re-execute the first schedules of every case completely and compare the logs (besides
+    /// the hash comparison at every replayed choice point, which is always on)
+    pub full_rerun_check: bool,
 }
 
 // ---------------------------------------------------------------- running one execution
@@ -184,7 +187,7 @@ struct FoundViolation {
 
 const MAX_OUTCOMES: usize = 2_000_000;
 
-fn explore_case(idx: usize, case: &Case, deadline: Option<Instant>, want_sample: bool, split: Option<vexec::Split>, abort_after: Option<u64>) -> Value {
+fn explore_case(idx: usize, case: &Case, deadline: Option<Instant>, want_sample: bool, split: Option<vexec::Split>, abort_after: Option<u64>, reruns: u64) -> Value {
     let t0 = Instant::now();
     let _ = take_obligations();
     let mut outcomes: HashSet<u64> = HashSet::new();
@@ -236,7 +239,7 @@ fn explore_case(idx: usize, case: &Case, deadline: Option<Instant>, want_sample:
         }
         Control::Continue
     };
-    let r = vexec::explore(case.bound, deadline, 2, split, abort_after, &mut run, &mut visit);
+    let r = vexec::explore(case.bound, deadline, reruns, split, abort_after, &mut run, &mut visit);
     let mut out = json!({"idx": idx, "desc": case.desc, "wall_s": t0.elapsed().as_secs_f64()});
     match r {
         Ok(stats) if stats.aborted_too_big => {
@@ -368,7 +371,7 @@ pub fn worker_main(prop: &Property, tier: Tier, deadline_unix_ms: u64) {
         let out = if deadline.is_some_and(|d| Instant::now() >= d) {
             json!({"idx": idx, "desc": cases[idx].desc, "skipped": true, "violations": []})
         } else {
-            explore_case(idx, &cases[idx], deadline, (idx % 97 == 0 || idx < 3) && split.is_none_or(|s| s.part == 0), split, abort_after)
+            explore_case(idx, &cases[idx], deadline, (idx % 97 == 0 || idx < 3) && split.is_none_or(|s| s.part == 0), split, abort_after, if prop.full_rerun_check { 2 } else { 0 })
         };
         let mut so = stdout.lock();
         writeln!(so, "{}", out).unwrap();
@@ -793,14 +796,14 @@ pub fn check_main(prop: &Property, tier: Tier) -> i32 {
     if single_outcome_multi_schedule > 0 {
         println!("note: {single_outcome_multi_schedule} cases had >50 schedules but a single distinct outcome");
     }
-    if !machinery.is_empty() {
-        for m in &machinery {
-            eprintln!("MACHINERY-ERROR: {m}");
-        }
-        return 2;
+    for m in &machinery {
+        eprintln!("MACHINERY-ERROR: {m}");
     }
+    // a violation that was found stands even if another case ran into a machinery problem
     if new_violations > 0 {
         1
+    } else if !machinery.is_empty() {
+        2
     } else {
         0
     }
